@@ -148,6 +148,11 @@ struct Model {
     priority: u8,
     retrigger: bool,
     cap_exceeded: bool,
+    /// selection under a priority chosen after the latest note message ("as of the latest note message ... according to
+    /// the selected priority" can be read either way until the next note message)
+    note_alt: Option<u8>,
+    /// a zero-velocity note-on was the latest note-on: "the velocity of the most recent note-on" may or may not count it
+    vel0_latest: bool,
 }
 
 impl Model {
@@ -170,6 +175,8 @@ impl Model {
             priority: 0,
             retrigger: false,
             cap_exceeded: false,
+            note_alt: None,
+            vel0_latest: false,
         }
     }
     fn choose(&self) -> u8 {
@@ -181,6 +188,8 @@ impl Model {
     }
     fn note_on(&mut self, n: u8, v: u8) {
         self.vel = v;
+        self.vel0_latest = false;
+        self.note_alt = None;
         self.vel_set = true;
         if self.held.len() >= 32 {
             self.cap_exceeded = true;
@@ -196,6 +205,7 @@ impl Model {
         }
     }
     fn note_off(&mut self, n: u8) {
+        self.note_alt = None;
         self.held.retain(|x| *x != n);
         if self.held.is_empty() {
             if self.gate {
@@ -208,6 +218,7 @@ impl Model {
         }
     }
     fn all_notes_off(&mut self) {
+        self.note_alt = None;
         self.held.clear();
         if self.gate {
             self.falling = true;
@@ -279,7 +290,7 @@ pub struct Exec {
     twin_ok: bool,
     // recorded history for C18
     cc_hist: [[Option<u32>; 128]; 5],
-    bend_hist: Vec<(u16, u32)>,
+    bend_seen: std::collections::BTreeMap<u16, u32>,
     polls_since_edge: u32,
     /// C05 edge latches, driven by the *observed* gate() and the decoded note-ons (the statement is about
     /// changes of gate(), so it needs no <= 32-keys precondition)
@@ -303,26 +314,32 @@ impl Exec {
         let m = &self.m;
         let notes_ok = !m.cap_exceeded;
         let def = m.def.unwrap_or(o);
-        let vel_ok = if m.vel_set { is_v_over_127(o.vel, m.vel) } else { o.vel == def.vel };
-        let note_side = !notes_ok || (o.gate == m.gate && o.note == m.note && vel_ok);
+        let same = |a: u32, b: u32| a == b || f32::from_bits(a) == f32::from_bits(b); // -0.0 is 0.0
+        let vel_ok = (if m.vel_set { is_v_over_127(o.vel, m.vel) } else { same(o.vel, def.vel) })
+            || (m.vel0_latest && f32::from_bits(o.vel) == 0.0);
+        let note_ok = o.note == m.note || Some(o.note) == m.note_alt;
+        let note_side = !notes_ok || (o.gate == m.gate && note_ok && vel_ok);
         let mut cc_ok = true;
         for i in 0..5 {
             let ok = match m.cc[i] {
                 Some(v) => is_v_over_127(o.cc[i], v),
-                None => o.cc[i] == def.cc[i],
+                None => same(o.cc[i], def.cc[i]),
             };
             if !ok {
                 cc_ok = false;
             }
         }
+        // C18 fixes three anchors and strict monotonicity, not a formula: what follows from that for a single value is
+        // checked here (anchors, the open intervals between them, one output per 14-bit value); the order between
+        // different values is checked against everything seen so far when a bend message completes
         let bend_ok = match m.bend {
-            None => o.bend == def.bend,
+            None => same(o.bend, def.bend),
             Some(b) => {
                 let got = f32::from_bits(o.bend);
-                (got as f64 - Model::bend_f64(b)).abs() <= 1e-4
-                    && (b != 8192 || got == 0.0)
-                    && (b != 0 || got == -1.0)
-                    && (b != 16383 || got == 1.0)
+                let anchors = (b != 8192 || got == 0.0) && (b != 0 || got == -1.0) && (b != 16383 || got == 1.0);
+                let between = if b < 8192 { got >= -1.0 && got < 0.0 && (b == 0 || got > -1.0) } else if b > 8192 { got > 0.0 && got <= 1.0 && (b == 16383 || got < 1.0) } else { true };
+                let one_value = self.bend_seen.get(&b).map(|bits| *bits == o.bend).unwrap_or(true);
+                anchors && between && one_value
             }
         };
         let porta_ok = o.porta_on == m.porta_on.unwrap_or(def.porta_on);
@@ -445,6 +462,7 @@ fn byte_step(ex: &mut Exec, b: u8, skip: bool, ctx: &mut Ctx) {
                     0x8 | 0x9 => {
                         if msg.status >> 4 == 0x9 {
                             ctx.probe(P_VEL0_NOTE_OFF);
+                            m.vel0_latest = true;
                         }
                         if !m.held.contains(&msg.d1) {
                             ctx.fault(F_STRAY_NOTE_OFF);
@@ -483,11 +501,15 @@ fn byte_step(ex: &mut Exec, b: u8, skip: bool, ctx: &mut Ctx) {
                                 m.sustain_on = None;
                             }
                             123 => {
-                                ctx.fault(F_ALL_NOTES_OFF);
-                                if m.gate {
-                                    ctx.probe(P_ANO_WHILE_GATE_HIGH);
+                                // MIDI 1.0 defines All Notes Off as controller 123 with value 0; what a non-zero value does
+                                // is not stated, so for those the model follows what the receiver did (act or ignore)
+                                if msg.d2 == 0 || !g1 || !m.gate {
+                                    ctx.fault(F_ALL_NOTES_OFF);
+                                    if m.gate {
+                                        ctx.probe(P_ANO_WHILE_GATE_HIGH);
+                                    }
+                                    m.all_notes_off();
                                 }
-                                m.all_notes_off();
                             }
                             _ => {}
                         }
@@ -527,8 +549,24 @@ fn byte_step(ex: &mut Exec, b: u8, skip: bool, ctx: &mut Ctx) {
                             ex.cc_hist[i][msg.d2 as usize] = Some(got.to_bits());
                         }
                     }
-                } else if msg.status >> 4 == 0xE && ex.bend_hist.len() < 512 {
-                    ex.bend_hist.push((ex.m.bend.unwrap_or(8192), ex.rx.pitch_bend().to_bits()));
+                } else if msg.status >> 4 == 0xE {
+                    let b14 = ex.m.bend.unwrap_or(8192);
+                    let got = ex.rx.pitch_bend();
+                    if !ex.bend_seen.contains_key(&b14) {
+                        let below = ex.bend_seen.range(..b14).next_back().map(|(k, v)| (*k, f32::from_bits(*v)));
+                        let above = ex.bend_seen.range(b14 + 1..).next().map(|(k, v)| (*k, f32::from_bits(*v)));
+                        if let Some((k, f)) = below {
+                            ctx.check(18, "pitch_bend_strictly_increasing", got > f, || {
+                                format!("pitch bend {} -> {:e} but {} -> {:e}", k, f, b14, got)
+                            });
+                        }
+                        if let Some((k, f)) = above {
+                            ctx.check(18, "pitch_bend_strictly_increasing", got < f, || {
+                                format!("pitch bend {} -> {:e} but {} -> {:e}", b14, got, k, f)
+                            });
+                        }
+                        ex.bend_seen.insert(b14, got.to_bits());
+                    }
                 }
             }
         }
@@ -670,7 +708,7 @@ impl Engine for MidiEngine {
             need_status: false,
             twin_ok: true,
             cc_hist: [[None; 128]; 5],
-            bend_hist: Vec::new(),
+            bend_seen: std::collections::BTreeMap::new(),
             polls_since_edge: 0,
             lr: false,
             lf: false,
@@ -731,11 +769,12 @@ impl Engine for MidiEngine {
                 ex.m.priority = (*p).min(2);
                 if !ex.m.held.is_empty() {
                     ctx.fault(F_MODE_CHANGE_WHILE_HELD);
+                    ex.m.note_alt = Some(ex.m.choose());
                 }
                 let o = outs(&ex.rx);
                 let m = &ex.m;
                 if !m.cap_exceeded {
-                    ctx.check(4, "mode_change_keeps_outputs", o.gate == m.gate && o.note == m.note, || {
+                    ctx.check(4, "mode_change_keeps_outputs", o.gate == m.gate && (o.note == m.note || Some(o.note) == m.note_alt), || {
                         format!("set_note_priority changed gate/note to {}/{} (expected {}/{})", o.gate, o.note, m.gate, m.note)
                     });
                 }
@@ -792,19 +831,6 @@ impl Engine for MidiEngine {
                     last = Some((v, out));
                 }
             }
-        }
-        let mut bh = std::mem::take(&mut ex.bend_hist);
-        bh.sort();
-        bh.dedup();
-        for w in bh.windows(2) {
-            let (a, b) = (w[0], w[1]);
-            if a.0 == b.0 {
-                continue;
-            }
-            let (fa, fb) = (f32::from_bits(a.1), f32::from_bits(b.1));
-            ctx.check(18, "pitch_bend_strictly_increasing", fb > fa, || {
-                format!("pitch bend {} -> {:e} but {} -> {:e}", a.0, fa, b.0, fb)
-            });
         }
     }
 
@@ -1078,7 +1104,8 @@ fn gen_vel(rng: &mut Rng) -> u8 {
 fn random_run(rng: &mut Rng, prof: &Profile, sink: &mut Sink<MidiEngine>) {
     let focus = prof.focus;
     let chaos = prof.chaos;
-    let ch_arg: u8 = if chaos || rng.chance(0.1) { rng.below(256) as u8 } else { rng.below(16) as u8 };
+    // what a channel argument above 15 listens to is C20's business: only the no-panic profile uses such arguments
+    let ch_arg: u8 = if chaos { rng.below(256) as u8 } else { rng.below(16) as u8 };
     let mut t = sink.begin(Cfg { ch: ch_arg });
     // swarm configuration
     let mut wire = Wire {
@@ -1263,7 +1290,7 @@ fn random_run(rng: &mut Rng, prof: &Profile, sink: &mut Sink<MidiEngine>) {
                 let n = if !held.is_empty() && rng.chance(0.7) { *rng.pick(&held) } else { gen_note(rng) };
                 { let d__ = [n, 0]; wire.send(rng, &mut t, 0x90 | ch, &d__) };
             }
-            4 => { let d__ = [123, rng.below(128) as u8]; wire.send(rng, &mut t, 0xB0 | ch, &d__) },
+            4 => { let d__ = [123, if rng.chance(0.8) { 0 } else { rng.below(128) as u8 }]; wire.send(rng, &mut t, 0xB0 | ch, &d__) },
             5 => {
                 let cc = *rng.pick(&[1u8, 7, 71, 74, 5, 65, 64, 121]);
                 let v = match rng.below(5) {
@@ -1305,7 +1332,7 @@ fn random_run(rng: &mut Rng, prof: &Profile, sink: &mut Sink<MidiEngine>) {
                 }
             }
             10 => {
-                let c = if chaos || rng.chance(0.3) { rng.below(256) as u8 } else { rng.below(16) as u8 };
+                let c = if chaos { rng.below(256) as u8 } else { rng.below(16) as u8 };
                 t.push(Ev::Restart(c));
                 wire.running = 0;
             }
